@@ -446,6 +446,16 @@ def run_case(case):
                         need(a * BASE, W, "scaled compared value")
                     exp = {CMPS[case["cmp"]](a, b) for a in vals
                            for b in rvals}
+                    ll = [c01.leaf_fmt(n, fm)
+                          for n in c01.leaves_of(expr, [])]
+                    rl = [c01.leaf_fmt(n, fm)
+                          for n in c01.leaves_of(case["rhs"], [])]
+                    if "Q" in ll and all(f in "BHIQ" for f in ll) and rl \
+                            and all(f != "x" and dsl.SIZES[f] <= 4
+                                    for f in rl) \
+                            and any(b < 0 for b in rvals):
+                        facts.add("wide-unsigned-left-vs-negative-narrow-"
+                                  "right")
                 else:
                     exp = set()
                     for v in vals:
@@ -558,4 +568,8 @@ KNOWN = {
         lambda case, res: "negative-division" in res.get("facts", ()),
     # root cause shared with C01-narrow-negative-widening
     "C02-narrow-negative-widening": _narrow_negative,
+    # root cause shared with C03-wide-unsigned-left-narrow-negative-right
+    "C02-wide-unsigned-left-narrow-negative-right":
+        lambda case, res: "wide-unsigned-left-vs-negative-narrow-right"
+        in res.get("facts", ()),
 }
